@@ -196,6 +196,18 @@ def run_case(case, R):
                 twice(R, "polynomial(poly,names,dtype)", f"polynomial({src} poly, {nlab}, dtype={tgt})",
                       lambda: numpoly.polynomial(p, names=nm if not isinstance(nm, str) else ("q0", "q1"), dtype=tgt),
                       lambda got: compare_cols(got, want, tgt, None), tg + ["names_given"])
+            # nested lists (rows, rows of rows) with a dtype request
+            nested = numpy.stack([arr, arr[::-1]])
+            with numpy.errstate(all="ignore"):
+                wantn = nested.astype(tgt)
+            twice(R, "polynomial(nested list,dtype)", f"polynomial(2-d list of {src}, dtype={tgt})", lambda: numpoly.polynomial([list(r) for r in nested], dtype=tgt),
+                  lambda got: compare_cols(got, {(0, 0): wantn}, tgt, None), tg + ["nested_list"])
+            twice(R, "polynomial(nested list,dtype)", f"polynomial(3-d list of {src}, dtype={tgt})", lambda: numpoly.polynomial([[list(r) for r in nested]], dtype=tgt),
+                  lambda got: compare_cols(got, {(0, 0): wantn[None]}, tgt, None), tg + ["nested_list"])
+            twice(R, "aspolynomial(nested list,dtype)", f"aspolynomial(2-d list of {src}, dtype={tgt})", lambda: numpoly.aspolynomial([list(r) for r in nested], dtype=tgt),
+                  lambda got: compare_cols(got, {(0, 0): wantn}, tgt, None), tg + ["nested_list"])
+            twice(R, "polynomial(nested list of polys,dtype)", f"polynomial([[{src} poly elements]], dtype={tgt})", lambda: numpoly.polynomial([[p[0], p[1]], [p[2], p[0]]], dtype=tgt),
+                  lambda got: compare_cols(got, {e: numpy.array([[c[0], c[1]], [c[2], c[0]]]) for e, c in want.items()}, tgt, None), tg + ["nested_list"])
             twice(R, "astype", f"({src} poly).astype({tgt})", lambda: p.astype(tgt), lambda got: compare_cols(got, want, tgt, None), tg)
             twice(R, "from_attributes(dtype)", f"from_attributes({src}, dtype={tgt})",
                   lambda: numpoly.polynomial_from_attributes(sorted(cols), [cols[e] for e in sorted(cols)], ("q0", "q1"), dtype=tgt),
